@@ -256,10 +256,7 @@ func refGetJSON(s []byte) (obj []byte, rest []byte, ok bool) {
 }
 
 func H_C13_getjson() {
-	n := 6
-	if vTier() == 1 {
-		n = 8
-	}
+	n := vP("bytes", 6, 8)
 	body := vNondetString(0, n-2, "{}\"\\ x")
 	stream := []byte("{" + body + "}" + "{\"z\":1}")
 	wantObj, _, ok := refGetJSON(stream)
